@@ -157,7 +157,7 @@ RULE = ("(1) helper-layer scripts `ahelp k1 k2 <ops>`: random sequences (4..16 c
         "block early, repeats, the /put transfer complete or left unfinished), dly (sends waiting in the delay queue: second and "
         "third CON of a burst, CONs behind a retransmission), tcp (CoAP over TCP on loopback: two sessions, messages of 400 and "
         "1200 bytes, a session still up must still be served), ws (the same over CoAP over WebSockets: HTTP upgrade on loopback, session->ws, the frame buffer of coap_ws_write, the receive PDU of the WS branch of coap_read_session), wsp (ws with a socket that takes only half of every large write on the second session: coap_ws_write's progress within a frame, the delay queue's partial_write, the server's ws->rx_data): every single failing request index k (quick and thorough) and pairs (k, k2) (quick: a "
-        "seeded sample of 4000, thorough: every pair of a scenario up to 40000 per scenario, 1500 per generated b1o / b1u order, 8000 of oscobs, 6000 of echo; a seeded sample beyond), each "
+        "seeded sample of 4000, thorough: every pair of a scenario up to 40000 per scenario, 1500 per generated b1o / b1u order, 8000 of oscobs, 6000 of echo, 3000 each of tcp / ws / wsp; a seeded sample beyond), each "
         "followed by a canary exchange, judged by ASan/UBSan, the Lean-verified ledger monitor on the real allocation trace, "
         "LSan, PDU-consumed evidence, 'a 2.xx body that claims to be complete is the body' (obsre: 'a notification is computed "
         "from the request the subscription was registered with'), the canary, and after the canary: reference count of every "
@@ -216,7 +216,10 @@ PAIR_CAP = 40000        # thorough: pairs per scenario (every pair below it, a s
 B1O_PAIR_CAP = 1500     # ... per generated b1o.<order> / b1u.<pairs> scenario (their single failures are all run)
 # ... of the scenarios added last (all 60 975 pairs of oscobs, echo and the two fixed b1u were run once by hand, design/C18.md):
 # a seeded sample keeps the thorough tier inside its 30 minutes
-SCN_PAIR_CAP = {"oscobs": 8000, "echo": 6000}
+SCN_PAIR_CAP = {"oscobs": 8000, "echo": 6000,
+                # real loopback sockets, served in real time (0.1-0.5 s per run): all 39 158 pairs of tcp / ws / wsp took the thorough tier
+                # far beyond its budget; their single failures are all run, pairs are a seeded sample
+                "tcp": 3000, "ws": 3000, "wsp": 3000}
 SCENARIOS = ["uri", "pdu", "rr", "b1", "b2", "obs", "setup", "osc", "h508", "wkc", "b1raw", "b2raw", "obsblk", "cache", "async", "obsre",
              "obsfetch", "oscobs", "echo", "xtok", "dly", "tcp", "ws", "wsp"]
 # parametrised scenario b1o.<digits>: the five hand-built Block1 requests of b1raw in a generated order (repeats allowed);
